@@ -8,6 +8,7 @@ Props/ComposeTables2.lean; same states `LoadedFrom img o` / `PrefixLoadedC img k
       (`needChainWf` / `defChainWf`, decidable), a refusal otherwise
       vernum_reports_spec, vernum_nodynamic: the count the constructors cache (`TQ.dynNum`: DT_VERNEEDNUM / DT_VERDEFNUM
       scan of the first section named `.dynamic`) = `specVerScan` of the records decoded from that section's file bytes
+  §2  prefix_modinfo_sound: module information on a truncated file that loads (C17)
 Images: `exImg2` (one requirement, one definition; no `.dynamic`), `exImg6` (= `exImg4` with a DT_VERNEEDNUM entry).
 -/
 import ElfioVerif.Lemmas.LoadedTables3
@@ -268,5 +269,76 @@ example (k : StreamKind) (isLazy : Bool) :
     ∃ r : LoadRes, load {} { data := exImg2, kind := k } isLazy = .ok r ∧ TQ.dynNum r.obj true = .ok (r.obj, 0) := by
   obtain ⟨r, h1, _, h3⟩ := of_load exImg2 {} k isLazy rfl exImg2_wf
   exact ⟨r, h1, vernum_nodynamic exImg2 r.obj h3 (by decide +kernel) true⟩
+
+/-! ### 2. truncated files (C17): module information on a prefix that loads -/
+
+/-- **prefix_modinfo_sound** (C17 for `modinfo_section_accessor`): on a prefix of a well-formed image that loads, for a
+    section `i` whose bytes in the COMPLETE file are the `field=value\0` records of the attributes `as` (as in
+    `modinfo_reports_spec`), the accessor holds either NO attribute (the section's data is not in the prefix: every
+    `get_attribute` refused) or exactly the complete file's attributes `as`, in order: `get_attribute(k, …)` is the
+    `k`-th of that list for EVERY 32-bit `k`, `get_attribute(field, …)` the first match in it for EVERY name.  Never a
+    partial or different list. -/
+theorem prefix_modinfo_sound (img : Bytes) (k : Nat) (o : Obj) (hP : PrefixLoadedC img k o) (i : Nat)
+    (hi : i < eh img "e_shnum") (as : List Modinfo.Attr) (hok : ∀ a ∈ as, Spec.AttrOk a)
+    (hbytes : secFileBytes img i = Spec.encodeModinfo as) (idx : BitVec 32) (field : Bytes) :
+    ∃ o1 as', PrefixLoadedC img k o1 ∧ (as' = [] ∨ as' = as) ∧
+      inspect o (.modinfo i) = .ok (o1, .attrs as') ∧
+      inspect o (.modinfoGet i idx) = .ok (o1, .attr as'[idx.toNat]?) ∧
+      inspect o (.modinfoByName i field) = .ok (o1, .value (Spec.lookupFirst as' field)) := by
+  obtain ⟨o1, b1, h1, hP1, hR, hLS, _, _⟩ := prefix_secResident_c img k o hP i hi
+  cases hd : b1.data with
+  | none =>
+    have hp : Modinfo.parse b1 = .ok [] := by
+      have : b1.getData.data = none := by rw [getData_of_settled hR.settled]; exact hd
+      simp only [Modinfo.parse, this, mod_has_data, Option.isSome_none, Bool.false_eq_true, if_false]; rfl
+    refine ⟨o1, [], hP1, Or.inl rfl, ?_, ?_, ?_⟩
+    · simp only [inspect, h1, hp]; rfl
+    · simp only [inspect, h1, hp, C14.getByIndex_eq [] (by decide)]; rfl
+    · simp only [inspect, h1, hp, C14.getByName_eq_lookupFirst]; rfl
+  | some d =>
+    obtain ⟨hF, hocc, hinv, hcont, hlen, hgd, hdata⟩ := pready_inv hR hLS hd
+    have hp := C14.modinfo_parse b1 hinv as (by rw [hcont, hbytes]) hok
+    have hl : as.length < 18446744073709551616 := by
+      have h1 := C14.encodeModinfo_length_ge as
+      have h2 := b1.size.isLt
+      simp only [Nat.reducePow] at h2
+      rw [← hbytes, hlen, ← hF.size] at h1
+      omega
+    refine ⟨o1, as, hP1, Or.inr rfl, ?_, ?_, ?_⟩
+    · simp only [inspect, h1, hp]; rfl
+    · simp only [inspect, h1, hp, C14.getByIndex_eq as hl]; rfl
+    · simp only [inspect, h1, hp, C14.getByName_eq_lookupFirst]; rfl
+
+/-- a 269-byte image like `exImg4` whose section 1 (8 bytes at 240, behind the header table) holds the module
+    information `a=b\0c=d\0`: proper prefixes load, with and without the section's data -/
+def exImg7 : Bytes :=
+  (((((((((exImg4.set 96 1).set 112 8).set 128 0).set 240 0x61).set 241 0x3d).set 242 0x62).set 243 0).set 244 0x63).set
+    245 0x3d).set 246 0x64 |>.set 247 0
+theorem exImg7_wf : WellFormedImage exImg7 := by decide +kernel
+def exAttrs7 : List (Bytes × Bytes) := [([0x61], [0x62]), ([0x63], [0x64])]
+
+/-- what the modinfo accessor of section 1 shows on the lazily loaded first `k` bytes -/
+def exModView (k : Nat) : Option (Bool × List (List UInt8 × List UInt8)) :=
+  match load {} { data := exImg7.take k } true with
+  | .ok rp =>
+    match inspect rp.obj (.modinfo 1) with
+    | .ok (_, .attrs as) => some (rp.ok, as)
+    | _ => none
+  | _ => none
+
+/-- 244 bytes: the section's data is cut — the load succeeds, no attribute; 248 bytes: the complete file's list -/
+example : (exModView 244).map (fun p => (p.1, p.2.length)) = some (true, 0) ∧
+    (exModView 248).map (fun p => (p.1, p.2.length)) = some (true, 2) ∧
+    (exModView 269).map (fun p => (p.1, p.2.length)) = some (true, 2) := by decide +kernel
+
+example (k : Nat) (kind : StreamKind) (isLazy : Bool) (rp : LoadRes)
+    (hp : load {} { data := exImg7.take k, kind := kind } isLazy = .ok rp) (hok : rp.ok = true) (idx : BitVec 32)
+    (f : Bytes) :
+    ∃ o1 as', (as' = [] ∨ as' = exAttrs7) ∧ inspect rp.obj (.modinfoGet 1 idx) = .ok (o1, .attr as'[idx.toNat]?) ∧
+      inspect rp.obj (.modinfoByName 1 f) = .ok (o1, .value (Spec.lookupFirst as' f)) := by
+  obtain ⟨o1, as', _, g1, _, g2, g3⟩ := prefix_modinfo_sound exImg7 k rp.obj
+    (prefixLoadedC_of_load exImg7 exImg7_wf {} rfl k kind isLazy rp hp hok) 1 (by decide +kernel) exAttrs7 (by decide)
+    (by decide +kernel) idx f
+  exact ⟨o1, as', g1, g2, g3⟩
 
 end ElfioVerif.ComposeTables
